@@ -428,6 +428,7 @@ func run(t *testing.T, tape *simrt.Tape) *common.Outcome {
 			return "[" + strings.Join(s, " ") + "]"
 		}
 
+		skipObservation := false
 		for i := 0; i < nOps; i++ {
 			now := time.Now()
 			m.expire(now)
@@ -533,7 +534,12 @@ func run(t *testing.T, tape *simrt.Tape) *common.Outcome {
 				mutating++
 			case 5:
 				d := advances[g.Int(len(advances))]
-				o.Logf("#%d t=%v advance %v", i, simrt.Now(), d)
+				// Observing is not neutral: Addrs() on the datastore book cleans AND flushes the record it loads, while
+				// UpdateAddrs / GetPeerRecord / the sequence lookup clean the cached copy without flushing. If every clock
+				// advance were followed by the harness's own Addrs() on every peer, no operation of the history could ever be
+				// the first to touch a record after its addresses expired. Half of the advances are therefore not observed.
+				skipObservation = g.Chance(1, 2)
+				o.Logf("#%d t=%v advance %v (observed: %v)", i, simrt.Now(), d, !skipObservation)
 				simrt.TimeSleep(d)
 				lastOp = "advance"
 			case 6:
@@ -558,6 +564,10 @@ func run(t *testing.T, tape *simrt.Tape) *common.Outcome {
 			when := "later"
 			if lastOp != "advance" && lastOp != "reopen" {
 				when = "same-instant"
+			}
+			if lastOp == "advance" && skipObservation {
+				o.Probe("advance-not-observed")
+				continue
 			}
 			if !compare(when) {
 				return
